@@ -63,8 +63,11 @@ def crossratio(
         if not np.all(is_concurrent(a, b, c, d)):
             raise NotConcurrent("The lines are not concurrent: " + str([a, b, c, d]))
 
-        from_point = a.meet(b)
-        a, b, c, d = a.base_point, b.base_point, c.base_point, d.base_point
+        if a.dim > 2:
+            from_point = a.meet(b)
+            a, b, c, d = a.base_point, b.base_point, c.base_point, d.base_point
+        # in the plane concurrent lines are handled like collinear points (duality): the arbitrarily chosen
+        # base points could coincide with the common point of the lines
 
     elif (
         isinstance(a, PlaneTensor)
